@@ -96,6 +96,18 @@ fn plugin_route(l: &mut Local, mt: &str, kind: &str, site: &str, tag: &str, cont
         Err(_) => return,
     };
     let lib = format!("{}\n{}\n{}", e, e.debug_report(), format!("{e:?}"));
+    // the validate_mt workflow function reports the same parse failure: not valid, and what the parser's error
+    // identifies (tag; message type for a missing field) is found in its report as well
+    if let Ok(Ok(pj)) = guard(|| crate::plug::validate_mt(&full)) {
+        let report = pj["errors"].to_string();
+        if pj["valid"].as_bool() == Some(true) {
+            v(l, mt, kind, site, "validate-plugin-says-valid", format!("MT{mt}: the validate_mt plugin calls a message valid that the parser rejects (field {tag})"), case);
+        } else if names_tag(&lib, tag) && !names_tag(&report, tag) {
+            v(l, mt, kind, site, "validate-plugin-loses-tag", format!("MT{mt}: the validate_mt plugin's report for field {tag} does not name it although the parser's own error does: {}", report.chars().take(120).collect::<String>()), case);
+        } else if kind == "deleted" && lib.contains(mt) && !report.contains(mt) {
+            v(l, mt, kind, site, "validate-plugin-loses-message-type", format!("MT{mt}: the validate_mt plugin's report for missing field {tag} does not name the message type although the parser's own error does: {}", report.chars().take(120).collect::<String>()), case);
+        }
+    }
     let Ok(Err(pe)) = guard(|| crate::plug::parse_mt(&full).map(|_| ())) else {
         l.eval(&format!("MT{mt}/plugin-route"), "plugin-accepted-or-panicked(not judged here)", false, 0);
         return;
